@@ -180,6 +180,8 @@ def py_norm(t):
             h = ("id", "G")
         if h in (("id", "GL"), ("id", "GLAlias")):      # type GL<A, B> = G<A> (through a projection)
             return ("app", ("id", "G"), [py_norm(t[2][0])])
+        if h == ("id", "GM"):                            # type GM<'a, T, N> = G<T>
+            return ("app", ("id", "G"), [py_norm(t[2][1])])
         return ("app", h, [py_norm(a) for a in t[2]])
     if k == "paren":
         return py_norm(t[1])
@@ -224,11 +226,15 @@ FLAVOURS.update({
     "ld": ("<T>", ["T"], gl("GL", ("raw", "Box<dyn Fn(u8) + 'static>")), "S<u32>", tid("u32")),
     "lf": ("<T>", ["T"], gl("GL", ("raw", "fn(&'static str) -> &'static str")), "S<u32>", tid("u32")),
 })
-CONSTS = {"c": ["N"]}
-STATE_FLAVOURS = ("fld", "g", "t", "h")
-AS_FLAVOURS = ("fld", "g", "t", "c", "l", "ld", "lf")
-SMALL_FLAVOURS = ("ld", "lf")             # no Coq rendering of their field type: oracle + run time only
-CTOR = {"fld": "G", "g": "G", "t": "G", "h": "H", "c": "G", "l": "G", "ld": "G", "lf": "G"}
+# lifetime + type + const parameters together (`type GM<'a, T, const N: usize> = G<T>`, all three used)
+GM = ("app", tid("GM"), [("raw", "'a"), tid("T"), tid("N")])
+FLAVOURS["m"] = ("<'a, T, const N: usize>", ["T"], GM, "S<'static, u32, 2>", tid("u32"))
+CONSTS = {"c": ["N"], "m": ["N"]}
+LIFETIMES = {"m": ["a"]}
+STATE_FLAVOURS = ("fld", "g", "t", "h", "c", "m")
+AS_FLAVOURS = ("fld", "g", "t", "c", "l", "ld", "lf", "m")
+SMALL_FLAVOURS = ("ld", "lf", "m")        # no Coq rendering of their field type: oracle + run time only
+CTOR = {"fld": "G", "g": "G", "t": "G", "h": "H", "c": "G", "l": "G", "ld": "G", "lf": "G", "m": "G"}
 
 # candidate listed types per flavour
 AS_TYPES = {
@@ -239,6 +245,7 @@ AS_TYPES = {
     "c": [tid("Fld"), tid("FldAlias"), tqual("crate", "Fld"), tid("Inner"), ("slice", tid("u32")),
           ("array", tid("u32"), "N"), ("array", tid("u32"), 2)],
 }
+AS_TYPES["m"] = [GM, tapp(tid("G"), tid("T")), tid("Inner"), ("slice", tid("T")), ("array", tid("T"), "N")]
 for _f in ("l", "ld", "lf"):
     _second = FLAVOURS[_f][2][2][1]
     AS_TYPES[_f] = [gl("GL", _second), gl("GLAlias", _second), tapp(tid("G"), tid("T")), tid("Inner"), ("slice", tid("T")),
@@ -255,7 +262,7 @@ def c_gen(case):
         g = case["x"]
         return (g["src"], g["types"], g["lifetimes"], g["consts"])
     f = FLAVOURS[case["flavour"]]
-    return (f[0], f[1], [], CONSTS.get(case["flavour"], []))
+    return (f[0], f[1], LIFETIMES.get(case["flavour"], []), CONSTS.get(case["flavour"], []))
 
 
 def inst_len(t, name, val):
@@ -272,9 +279,23 @@ def inst_len(t, name, val):
     return t
 
 
+def inst_raw(t, a, b):
+    if t[0] == "raw":
+        return ("raw", t[1].replace(a, b))
+    if t[0] == "app":
+        return ("app", inst_raw(t[1], a, b), [inst_raw(x, a, b) for x in t[2]])
+    if t[0] in ("slice", "paren"):
+        return (t[0], inst_raw(t[1], a, b))
+    if t[0] == "array":
+        return ("array", inst_raw(t[1], a, b), t[2])
+    return t
+
+
 def inst(flav, t):
     if flav == "c":
         return inst_len(t, "N", 2)
+    if flav == "m":
+        return inst_raw(inst_len(subst(subst(t, "T", tid("u32")), "N", tid("2")), "N", 2), "'a", "'static")
     by = FLAVOURS[flav][4]
     return t if by is None else subst(t, "T", by)
 
@@ -721,7 +742,7 @@ def oracle_as(case):
     """impl/doc/as_ref.md (+ as_mut.md): which (field, target, behaviour) triples exist."""
     flav = case["flavour"]
     fty = FLAVOURS[flav][2]
-    params = FLAVOURS[flav][1] + CONSTS.get(flav, [])
+    params = FLAVOURS[flav][1] + CONSTS.get(flav, []) + ["'" + x for x in LIFETIMES.get(flav, [])]
 
     def merge(attrs, struct_level):
         cur = None
@@ -999,7 +1020,7 @@ def gen_exotic_cases(rng, tier):
             ("array", F, 3), ("array", F, "M"), tapp(T, F), tqual("a", "T"), tapp(tid("Vec"), tqual("a", "T")),
             tapp(tqual("a", "Vec"), T), ("paren", T), ("paren", F), tapp(tid("Box"), ("slice", T)), ("slice", F),
             tapp(tid("Map"), F, T), tapp(tid("Map"), F, tid("N")), tapp(tapp(tid("W"), F), F), tid("N"), tref(("paren", F)),
-            tqual("T", "Assoc"), tapp(tqual("T", "Assoc"), F), tqual("N", "Assoc"), tqual("a", "T", "b"),
+            tid("str"), ("slice", tid("u8")), tqual("T", "Assoc"), tapp(tqual("T", "Assoc"), F), tqual("N", "Assoc"), tqual("a", "T", "b"),
             tapp(tid("Vec"), tqual("T", "Item")), tref(tqual("T", "Assoc"), "b"), tapp(tid("Map"), T, tref(tid("str"), "static")),
             tapp(tid("Map"), tref(tid("str"), "static"), T), tapp(tid("Map"), tid("N"), tref(tid("str"), "static"))]
     cases = []
@@ -1045,6 +1066,9 @@ pub trait Fst { type Out; }
 impl<A, B> Fst for (A, B) { type Out = G<A>; }
 pub type GL<A, B> = <(A, B) as Fst>::Out;
 pub type GLAlias<A, B> = GL<A, B>;
+pub trait Mid { type Out; }
+impl<'a, T, const N: usize> Mid for (&'a (), T, [(); N]) { type Out = G<T>; }
+pub type GM<'a, T, const N: usize> = <(&'a (), T, [(); N]) as Mid>::Out;
 
 pub fn addr<T: ?Sized>(r: &T) -> usize { r as *const T as *const u8 as usize }
 pub fn pos<X: PartialEq>(cand: &[X], got: &X) -> String {
@@ -1133,6 +1157,196 @@ INHERENT_BY_REF = "pub fn into_iter(&self) -> std::iter::Rev<std::slice::Iter<'_
 PRELUDE = (PRELUDE_HEAD + FIELD_TYPE.replace("INHERENT_INTO_ITER", INHERENT_BY_VALUE)
            + re.sub(r"\bG\b", "H", FIELD_TYPE.replace("INHERENT_INTO_ITER", INHERENT_BY_REF)))
 
+
+
+# ------------------------------------------------------------------ unsized selected fields (hand-written corpus)
+# str, [u32], a DST newtype with its own impls, an unsized tail field - for the derives where that is legal.
+# Every line printed is `id<TAB>label<TAB>res=ok|BAD..`: the derived impl returns the field itself (address and
+# length) where the doc rules say so, else what the field type's own impl returns when called explicitly.
+UNSIZED_COMMON = r"""
+use super::*;
+use std::ffi::OsStr;
+use std::path::Path;
+pub fn a2<T: ?Sized>(r: &T) -> (usize, usize) { (addr(r), std::mem::size_of_val(r)) }
+pub fn chk(id: &str, label: &str, got: (usize, usize), want: (usize, usize)) -> String {
+    format!("{}\t{}\tres={}", id, label, if got == want { "ok".to_string() } else { format!("BAD got {:?} want {:?}", got, want) })
+}
+// a DST newtype whose own impls answer from a SUB-slice (recognisable)
+#[repr(transparent)]
+pub struct Body(pub [u32]);
+impl AsRef<[u32]> for Body { fn as_ref(&self) -> &[u32] { &self.0[1..] } }
+impl AsMut<[u32]> for Body { fn as_mut(&mut self) -> &mut [u32] { &mut self.0[1..] } }
+impl Deref for Body { type Target = [u32]; fn deref(&self) -> &[u32] { &self.0[1..] } }
+impl DerefMut for Body { fn deref_mut(&mut self) -> &mut [u32] { &mut self.0[1..] } }
+pub type SliceAlias = [u32];
+pub type StrAlias = str;
+"""
+
+UNSIZED = [
+    ("#[derive(AsRef)] #[as_ref(str, [u8], OsStr, Path)] #[repr(transparent)] struct S(str);", r"""
+#[derive(derive_more::AsRef)]
+#[as_ref(str, [u8], OsStr, Path)]
+#[repr(transparent)]
+pub struct S(str);
+pub fn run(id: &str, out: &mut Vec<String>) {
+    let backing = String::from("hello");
+    let s: &S = unsafe { &*(backing.as_str() as *const str as *const S) };
+    out.push(chk(id, "AsRef<str> is the field", a2(<S as AsRef<str>>::as_ref(s)), a2(&s.0)));
+    out.push(chk(id, "AsRef<[u8]> is str's own", a2(<S as AsRef<[u8]>>::as_ref(s)), a2(<str as AsRef<[u8]>>::as_ref(&s.0))));
+    out.push(chk(id, "AsRef<OsStr> is str's own", a2(<S as AsRef<OsStr>>::as_ref(s)), a2(<str as AsRef<OsStr>>::as_ref(&s.0))));
+    out.push(chk(id, "AsRef<Path> is str's own", a2(<S as AsRef<Path>>::as_ref(s)), a2(<str as AsRef<Path>>::as_ref(&s.0))));
+}
+"""),
+    ("#[derive(AsRef, AsMut)] struct S(#[as_ref(StrAlias, [u8])] #[as_mut(StrAlias)] str);  (alias of the unsized field type)", r"""
+#[derive(derive_more::AsRef, derive_more::AsMut)]
+#[repr(transparent)]
+pub struct S(#[as_ref(StrAlias, [u8])] #[as_mut(StrAlias)] str);
+pub fn run(id: &str, out: &mut Vec<String>) {
+    let mut backing = String::from("hello");
+    let s: &mut S = unsafe { &mut *(backing.as_mut_str() as *mut str as *mut S) };
+    let want = a2(&s.0);
+    out.push(chk(id, "AsRef<StrAlias> is the field", a2(<S as AsRef<str>>::as_ref(s)), want));
+    out.push(chk(id, "AsRef<[u8]> is str's own", a2(<S as AsRef<[u8]>>::as_ref(s)), a2(<str as AsRef<[u8]>>::as_ref(&s.0))));
+    let got = { let r: &mut str = <S as AsMut<str>>::as_mut(s); r.make_ascii_uppercase(); a2(r) };
+    out.push(chk(id, "AsMut<StrAlias> is the field", got, want));
+    out.push(chk(id, "write through AsMut visible in the field", (0, (&s.0 == "HELLO") as usize), (0, 1)));
+}
+"""),
+    ("#[derive(AsRef, AsMut)] struct A(#[as_ref] #[as_mut] [u32]); #[as_ref(SliceAlias)] struct B([u32]); #[as_ref(forward)] struct C([u32]);", r"""
+#[derive(derive_more::AsRef, derive_more::AsMut)]
+#[repr(transparent)]
+pub struct A(#[as_ref] #[as_mut] [u32]);
+#[derive(derive_more::AsRef, derive_more::AsMut)]
+#[as_ref(SliceAlias)]
+#[as_mut(SliceAlias)]
+#[repr(transparent)]
+pub struct B([u32]);
+#[derive(derive_more::AsRef, derive_more::AsMut)]
+#[as_ref(forward)]
+#[as_mut(forward)]
+#[repr(transparent)]
+pub struct C([u32]);
+pub fn run(id: &str, out: &mut Vec<String>) {
+    let mut v = vec![1u32, 2, 3, 4];
+    { let s: &mut A = unsafe { &mut *(&mut v[..] as *mut [u32] as *mut A) };
+      let want = a2(&s.0);
+      out.push(chk(id, "A: AsRef<[u32]> is the field", a2(<A as AsRef<[u32]>>::as_ref(s)), want));
+      let got = { let r = <A as AsMut<[u32]>>::as_mut(s); r[0] = 71; a2(r) };
+      out.push(chk(id, "A: AsMut<[u32]> is the field", got, want)); }
+    { let s: &mut B = unsafe { &mut *(&mut v[..] as *mut [u32] as *mut B) };
+      let want = a2(&s.0);
+      out.push(chk(id, "B: AsRef<SliceAlias> is the field", a2(<B as AsRef<[u32]>>::as_ref(s)), want));
+      let got = { let r = <B as AsMut<[u32]>>::as_mut(s); r[1] = 72; a2(r) };
+      out.push(chk(id, "B: AsMut<SliceAlias> is the field", got, want)); }
+    { let s: &mut C = unsafe { &mut *(&mut v[..] as *mut [u32] as *mut C) };
+      out.push(chk(id, "C: forward AsRef<[u32]> is [u32]'s own", a2(<C as AsRef<[u32]>>::as_ref(s)), a2(<[u32] as AsRef<[u32]>>::as_ref(&s.0))));
+      let want = a2(&s.0);
+      let got = { let r = <C as AsMut<[u32]>>::as_mut(s); r[2] = 73; a2(r) };
+      out.push(chk(id, "C: forward AsMut<[u32]> is [u32]'s own", got, want)); }
+    out.push(chk(id, "writes visible", (0, (v == vec![71, 72, 73, 4]) as usize), (0, 1)));
+}
+"""),
+    ("#[derive(AsRef, AsMut)] struct W(#[as_ref([u32])] #[as_mut([u32])] Body);  struct P { len: usize, #[as_ref([u32])] #[as_mut([u32])] body: Body }  (DST newtype, unsized tail)", r"""
+#[derive(derive_more::AsRef, derive_more::AsMut)]
+#[repr(transparent)]
+pub struct W(#[as_ref([u32])] #[as_mut([u32])] Body);
+#[derive(derive_more::AsRef, derive_more::AsMut)]
+#[repr(C)]
+pub struct P { pub len: usize, #[as_ref([u32])] #[as_mut([u32])] pub body: Body }
+#[derive(derive_more::AsRef, derive_more::AsMut)]
+#[repr(C)]
+pub struct Q { #[as_ref] #[as_mut] pub len: usize, #[as_ref(forward)] #[as_mut(forward)] pub body: Body }
+pub fn run(id: &str, out: &mut Vec<String>) {
+    let mut v = vec![1u32, 2, 3, 4];
+    { let s: &mut W = unsafe { &mut *(&mut v[..] as *mut [u32] as *mut W) };
+      out.push(chk(id, "W: AsRef<[u32]> is Body's own", a2(<W as AsRef<[u32]>>::as_ref(s)), a2(<Body as AsRef<[u32]>>::as_ref(&s.0))));
+      let want = a2(<Body as AsMut<[u32]>>::as_mut(&mut s.0));
+      let got = { let r = <W as AsMut<[u32]>>::as_mut(s); r[0] = 82; a2(r) };
+      out.push(chk(id, "W: AsMut<[u32]> is Body's own", got, want)); }
+    out.push(chk(id, "W: write landed where Body's own AsMut points", (0, (v == vec![1, 82, 3, 4]) as usize), (0, 1)));
+    let mut buf = [0u64; 4];
+    { let p: &mut P = unsafe { &mut *(std::ptr::slice_from_raw_parts_mut(buf.as_mut_ptr() as *mut u32, 3) as *mut P) };
+      p.len = 3; p.body.0.copy_from_slice(&[10, 20, 30]);
+      out.push(chk(id, "P: AsRef<[u32]> is the tail field's own", a2(<P as AsRef<[u32]>>::as_ref(p)), a2(<Body as AsRef<[u32]>>::as_ref(&p.body))));
+      let want = a2(<Body as AsMut<[u32]>>::as_mut(&mut p.body));
+      let got = { let r = <P as AsMut<[u32]>>::as_mut(p); r[0] = 99; a2(r) };
+      out.push(chk(id, "P: AsMut<[u32]> is the tail field's own", got, want));
+      out.push(chk(id, "P: write visible in the tail field, len untouched", (p.len, (p.body.0 == [10, 99, 30]) as usize), (3, 1))); }
+    { let q: &mut Q = unsafe { &mut *(std::ptr::slice_from_raw_parts_mut(buf.as_mut_ptr() as *mut u32, 3) as *mut Q) };
+      out.push(chk(id, "Q: AsRef<usize> is the sized sibling", a2(<Q as AsRef<usize>>::as_ref(q)), a2(&q.len)));
+      out.push(chk(id, "Q: forward AsRef<[u32]> is the tail field's own", a2(<Q as AsRef<[u32]>>::as_ref(q)), a2(<Body as AsRef<[u32]>>::as_ref(&q.body)))); }
+}
+"""),
+    ("#[derive(Deref, DerefMut)] struct D(str) / struct E([u32]) / #[deref(forward)] struct F(Body) / struct T { len: usize, #[deref] #[deref_mut] body: Body }", r"""
+#[derive(derive_more::Deref, derive_more::DerefMut)]
+#[repr(transparent)]
+pub struct D(str);
+#[derive(derive_more::Deref, derive_more::DerefMut)]
+#[repr(transparent)]
+pub struct E([u32]);
+#[derive(derive_more::Deref, derive_more::DerefMut)]
+#[deref(forward)]
+#[deref_mut(forward)]
+#[repr(transparent)]
+pub struct F(Body);
+#[derive(derive_more::Deref, derive_more::DerefMut)]
+#[repr(C)]
+pub struct T { pub len: usize, #[deref] #[deref_mut] pub body: Body }
+pub fn run(id: &str, out: &mut Vec<String>) {
+    let mut backing = String::from("hello");
+    { let s: &mut D = unsafe { &mut *(backing.as_mut_str() as *mut str as *mut D) };
+      let want = a2(&s.0);
+      out.push(chk(id, "D: deref is the str field", a2::<str>(&**s), want));
+      let got = { let r: &mut str = &mut **s; r.make_ascii_uppercase(); a2(r) };
+      out.push(chk(id, "D: deref_mut is the str field", got, want)); }
+    out.push(chk(id, "D: write visible", (0, (backing == "HELLO") as usize), (0, 1)));
+    let mut v = vec![1u32, 2, 3, 4];
+    { let s: &mut E = unsafe { &mut *(&mut v[..] as *mut [u32] as *mut E) };
+      let want = a2(&s.0);
+      out.push(chk(id, "E: deref is the slice field", a2::<[u32]>(&**s), want));
+      let got = { let r: &mut [u32] = &mut **s; r[0] = 61; a2(r) };
+      out.push(chk(id, "E: deref_mut is the slice field", got, want)); }
+    { let s: &mut F = unsafe { &mut *(&mut v[..] as *mut [u32] as *mut F) };
+      out.push(chk(id, "F: forwarded deref is Body's own", a2::<[u32]>(&**s), a2(<Body as Deref>::deref(&s.0))));
+      let want = a2(<Body as DerefMut>::deref_mut(&mut s.0));
+      let got = { let r: &mut [u32] = &mut **s; r[0] = 62; a2(r) };
+      out.push(chk(id, "F: forwarded deref_mut is Body's own", got, want)); }
+    out.push(chk(id, "E/F: writes visible", (0, (v == vec![61, 62, 3, 4]) as usize), (0, 1)));
+    let mut buf = [0u64; 4];
+    { let t: &mut T = unsafe { &mut *(std::ptr::slice_from_raw_parts_mut(buf.as_mut_ptr() as *mut u32, 3) as *mut T) };
+      t.len = 3;
+      let want = a2(&t.body);
+      out.push(chk(id, "T: deref is the unsized tail field", a2::<Body>(&**t), want));
+      let got = { let r: &mut Body = &mut **t; r.0[2] = 7; a2(r) };
+      out.push(chk(id, "T: deref_mut is the unsized tail field", got, want));
+      out.push(chk(id, "T: write visible", (t.len, (t.body.0 == [0, 0, 7]) as usize), (3, 1))); }
+}
+"""),
+    ("#[derive(Index, IndexMut)] struct I([u32]);  struct J { len: usize, #[index] #[index_mut] body: [u32] }", r"""
+#[derive(derive_more::Index, derive_more::IndexMut)]
+#[repr(transparent)]
+pub struct I([u32]);
+#[derive(derive_more::Index, derive_more::IndexMut)]
+#[repr(C)]
+pub struct J { pub len: usize, #[index] #[index_mut] pub body: [u32] }
+pub fn run(id: &str, out: &mut Vec<String>) {
+    let mut v = vec![1u32, 2, 3, 4];
+    { let s: &mut I = unsafe { &mut *(&mut v[..] as *mut [u32] as *mut I) };
+      out.push(chk(id, "I: s[1] is the field's own", a2(&s[1usize]), a2(&s.0[1])));
+      out.push(chk(id, "I: s[1..3] is the field's own", a2(&s[1..3]), a2(&s.0[1..3])));
+      let want = a2(&s.0[2..]);
+      let got = { let r: &mut [u32] = &mut s[2..]; r[0] = 93; a2(r) };
+      out.push(chk(id, "I: index_mut s[2..] is the field's own", got, want)); }
+    out.push(chk(id, "I: write visible", (0, (v == vec![1, 2, 93, 4]) as usize), (0, 1)));
+    let mut buf = [0u64; 4];
+    { let j: &mut J = unsafe { &mut *(std::ptr::slice_from_raw_parts_mut(buf.as_mut_ptr() as *mut u32, 3) as *mut J) };
+      j.len = 3;
+      out.push(chk(id, "J: j[1] is the tail field's own", a2(&j[1usize]), a2(&j.body[1])));
+      j[..][2] = 5;
+      out.push(chk(id, "J: write visible", (j.len, (j.body == [0, 0, 5]) as usize), (3, 1))); }
+}
+"""),
+]
 
 
 NONCOPY_INDEX = [
@@ -1516,7 +1730,7 @@ def run(tier, seed, replay):
                 strata[k] = strata[k][take:]
         runtime = picked[:limit]
     chk.log("%d structs compiled with the real proc-macro" % len(runtime))
-    run_rt(chk, runtime)
+    run_rt(chk, runtime, with_unsized=not replay)
 
     extra = sum(v for k, v in chk.hist.items() if k.startswith("note:iter-unrequested-form"))
     if extra:
@@ -1575,7 +1789,7 @@ def py_norm_str(s, case):
     raise ValueError(s)
 
 
-def run_rt(chk, runtime):
+def run_rt(chk, runtime, with_unsized=True):
     if not runtime:
         return
     name = "c14_rt"
@@ -1587,6 +1801,12 @@ def run_rt(chk, runtime):
         files[c["id"] + ".rs"] = src
         mods.append(c["id"])
         plan[c["id"]] = (c, impls, ops)
+    uplan = {}
+    if with_unsized:
+        for k, (what, src) in enumerate(UNSIZED):
+            files["u%d.rs" % k] = UNSIZED_COMMON + src
+            mods.append("u%d" % k)
+            uplan["u%d" % k] = what
     main = PRELUDE + "\n" + "\n".join("mod %s;" % m for m in mods) + "\n\nfn main() {\n    let mut out: Vec<String> = Vec::new();\n" + \
         "\n".join('    %s::run("%s", &mut out);' % (m, m) for m in mods) + \
         "\n    for l in out { println!(\"{}\", l); }\n}\n"
@@ -1605,12 +1825,17 @@ def run_rt(chk, runtime):
             if msg.get("level") != "error":
                 continue
             for sp in msg.get("spans", []):
-                mm = re.match(r"src/(m\d+)\.rs$", sp.get("file_name", ""))
+                mm = re.match(r"src/([mu]\d+)\.rs$", sp.get("file_name", ""))
                 if mm:
                     bad.setdefault(mm.group(1), msg.get("rendered") or msg.get("message"))
         if not bad:
             raise common.BuildError("the generated C14 crate does not compile and no module can be blamed:\n" + err[-3000:])
         for m, text in sorted(bad.items()):
+            if m in uplan:
+                chk.violation("does-not-compile", {"unsized_corpus": m, "item": uplan[m], "rustc": text[-1500:]},
+                              "unsized selected field: `%s` expands but rustc rejects the result: %s" %
+                              (uplan[m], text.strip().splitlines()[0][:200]))
+                continue
             c = plan[m][0]
             cls = "does-not-compile"
             if c["derive"] in ("Index", "IndexMut") and re.search(r"E0277|E0608|cannot be indexed|cannot index into|: Copy`", text):
@@ -1638,6 +1863,18 @@ def run_rt(chk, runtime):
         parts = l.split("\t")
         obs.setdefault(parts[0], []).append((parts[1], dict(p.split("=", 1) for p in parts[2:])))
     n_obs = 0
+    for m in [x for x in mods if x in uplan]:
+        got = obs.get(m, [])
+        if not got:
+            chk.violation("rt-missing-observation", {"unsized_corpus": m, "item": uplan[m]}, "unsized module %s printed nothing" % m)
+        for (label, kv) in got:
+            n_obs += 1
+            chk.count(("unsized", m, label), True)
+            chk.bump("rt:unsized")
+            if kv.get("res") != "ok":
+                chk.violation("rt-unsized-wrong-reference", {"unsized_corpus": m, "item": uplan[m], "check": label, "observed": kv},
+                              "unsized selected field, `%s`: %s - %s" % (uplan[m], label, kv.get("res")))
+    mods = [x for x in mods if x not in uplan]
     for m in mods:
         c, impls, ops = plan[m]
         got = obs.get(m, [])
